@@ -66,19 +66,43 @@ func VerifRun_C02h() {
 	file := root + "/" + dir + "/a.lua"
 	saved := "local first = 1\nprint(first)\n"
 	verifVFSPut(file, []byte(saved))
+	// a sibling whose name differs only in letter case (case-sensitive file systems), open at the same time
+	twin := verifBool("twin")
+	file2 := root + "/" + dir + "/A.lua"
+	saved2 := "local other = 1\n\n\nprint(other)\n"
+	files := []string{file}
+	if twin {
+		verifVFSPut(file2, []byte(saved2))
+		files = append(files, file2)
+	}
 	c08view = map[string]string{}
-	l := c08eServer(root, []string{file})
+	l := c08eServer(root, files)
 	ctx := context.Background()
 	uri := lsp.DocumentURI("file://" + c02hEncode(file, style))
+	uri2 := lsp.DocumentURI("file://" + c02hEncode(file2, style))
 	_ = l.TextDocumentDidOpen(ctx, lsp.DidOpenTextDocumentParams{TextDocument: lsp.TextDocumentItem{URI: uri, Text: saved}})
+	if twin {
+		_ = l.TextDocumentDidOpen(ctx, lsp.DidOpenTextDocumentParams{TextDocument: lsp.TextDocumentItem{URI: uri2, Text: saved2}})
+	}
 	cur := saved + "local second = 2\nprint(second)\n"
 	_ = l.TextDocumentDidChange(ctx, lsp.DidChangeTextDocumentParams{
 		TextDocument:   lsp.VersionedTextDocumentIdentifier{TextDocumentIdentifier: lsp.TextDocumentIdentifier{URI: uri}},
 		ContentChanges: []lsp.TextDocumentContentChangeEvent{{Text: cur}}})
+	if twin {
+		// the sibling is edited too, then asked about: its own text answers
+		cur2 := "local other = 1\nprint(other)\n"
+		_ = l.TextDocumentDidChange(ctx, lsp.DidChangeTextDocumentParams{
+			TextDocument:   lsp.VersionedTextDocumentIdentifier{TextDocumentIdentifier: lsp.TextDocumentIdentifier{URI: uri2}},
+			ContentChanges: []lsp.TextDocumentContentChangeEvent{{Text: cur2}}})
+		locs2, _ := l.TextDocumentDefine(ctx, lsp.TextDocumentPositionParams{TextDocument: lsp.TextDocumentIdentifier{URI: uri2}, Position: lsp.Position{Line: 1, Character: 7}})
+		if len(locs2) != 1 || locs2[0].Range.Start.Line != 0 || locs2[0].Range.Start.Character != 6 {
+			verifViolation("", "of two open documents whose names differ only in letter case, one is answered from the other's text")
+		}
+	}
 	locs, _ := l.TextDocumentDefine(ctx, lsp.TextDocumentPositionParams{TextDocument: lsp.TextDocumentIdentifier{URI: uri}, Position: lsp.Position{Line: 3, Character: 8}})
 	verifReach("asked")
 	if len(locs) != 1 {
-		verifViolation("", "a request on a document whose path contains an ordinary special character is not answered from the buffer the client sent")
+		verifViolation("", "a request on a document is not answered from the buffer the client sent for it (path with an ordinary special character, or a sibling differing in letter case)")
 		return
 	}
 	if locs[0].Range.Start.Line != 2 || locs[0].Range.Start.Character != 6 {
